@@ -407,8 +407,15 @@ class Gen:
         inner = game
         if game == "base":
             inner = self.r.choice(["base", "osu", "osu", "qua", "bms"])
+        prev_lists = None
         for i in range(n):
             lists, meta, keys = gen_chart(self.d, inner, self.hi, keys=7 if game == "o2j" else None)
+            if game == "o2j" and prev_lists is not None and self.d.random() < 0.25:
+                # two levels of a set with equal content (distinct objects): as in files whose Easy and Normal are the same chart
+                import copy as _copy
+
+                lists = _copy.deepcopy(prev_lists)
+            prev_lists = lists
             if game == "sm":
                 if shared_bpms is None:
                     shared_bpms = lists["bpms"]
@@ -622,6 +629,8 @@ class Gen:
             v = 1 if cols[0] in ("column", "volume", "metronome") else float(self.r.choice([0.0, 100.0, 1.5]))
             if "metronome" in cols:
                 v = 4
+            elif not ({"column", "volume"} & set(cols)) and self.r.random() < 0.25:
+                v = float("nan")  # a missing value is a value too: the selected cells become NaN in the lists
         if "bpm" in cols and opr == "-":
             opr = "+"
         op = self.mk("stack.assign", h=h.name, cols=cols, mask=self._mask_expr(h), opr=opr, v=v,
@@ -945,6 +954,15 @@ class FileGen(Gen):
         self.paths: dict[str, str] = {}  # path -> game
         self.s.last_io = None
         self._retried = set()
+        if self.r.random() < 0.2:
+            # the user program worked with lists of the base classes (or of another game) BEFORE it touches this format:
+            # class-level state the library keeps (caches looked up through the MRO, class attributes) is then already set
+            for cls in self.r.sample(["TimedList", "HitList", "HoldList", "BpmList", "OsuHitList", "QuaHitList", "BMSHitList", "SMHitList"], 3):
+                a = self.new_h()
+                rows = gen_rows(self.d, cls, self.d.choice([1, 2, 3]), 4, sort=True)
+                self.queue.append(self.mk("list.new", cls=cls, how="items", rows=rows, out=a, keys=4))
+                self.queue.append(self.mk("list.iter", h=a))
+            # (the handles stay in the world: dropping is the generator's ordinary business)
 
     # -- helpers
     def new_path(self, game):
@@ -1241,6 +1259,7 @@ class GridMixin:
         from fractions import Fraction
 
         slots = fields.GAMES[game]
+        jitter = self.d.random() < 0.15
         kinds = ["hits", "holds"]
         if game == "sm":
             kinds += [k for k in ("rolls", "mines", "lifts", "fakes", "keysounds") if self.d.random() < 0.3]
@@ -1254,6 +1273,13 @@ class GridMixin:
             for row in rows:
                 base = gen_row(self.d, slots[k], keys)
                 base.update(row)
+                if jitter and self.d.random() < 0.3 and isinstance(base.get("offset"), float):
+                    # times that came through float arithmetic (t += beat) sit one ulp beside the exact value: still "on the grid"
+                    import math
+
+                    # (never below the first tempo point: a time before it has no beat)
+                    up_only = base["offset"] <= float(tl[0][2])
+                    base["offset"] = math.nextafter(base["offset"], math.inf if up_only else self.d.choice([-math.inf, math.inf]))
                 full.append(base)
             if self.d.random() < 0.4:
                 self.d.shuffle(full)
